@@ -484,6 +484,10 @@ def gen_xlsx(rng, profile="structured"):
 
 
 # ------------------------------------------------------------------ xlsx packing
+class _B:
+    """a bytes match seen as text (groups decoded as UTF-8, result re-encoded)"""
+    def __init__(self, m): self.m = m
+    def group(self, i): return self.m.group(i).decode("utf-8")
 def parse_parts(txt):
     out = []
     if txt:
@@ -517,6 +521,17 @@ def pack_xlsx(parts, sheets, rng=None):
         rels.append('<Relationship Id="rId%d" Type="%s/worksheet" Target="%s"/>' % (i + 1, NS_REL, target))
     wb.append("</sheets></workbook>")
     rels.append("</Relationships>")
+    if rng:
+        # CT_Table has two names: displayName (what formulas and calamine use) and the object-model
+        # name; they may differ and stand in either order.  The Coq encoder writes them equal, name
+        # first; a third of the table parts are respelled here (tie only: the reader ignores `name`)
+        import re as _re
+        def _respell(m):
+            if rng.random() < 0.35:
+                return m.group(1) + " displayName=" + m.group(3) + ' name="Obj_%d"' % rng.randrange(1000)
+            return m.group(0)
+        parts = [(n, _re.sub(rb'(<[A-Za-z0-9:]*table\b[^>]*?) name=("[^"]*") displayName=("[^"]*")',
+                             lambda m: _respell(_B(m)).encode("utf-8"), d, count=1) if "/tables/" in n else d) for n, d in parts]
     fixed = [("[Content_Types].xml", (DECL + '<Types xmlns="%s"><Default Extension="xml" ContentType="application/xml"/>'
                                       '<Default Extension="rels" ContentType="application/vnd.openxmlformats-package.relationships+xml"/>'
                                       "</Types>" % NS_CT).encode()),
